@@ -343,13 +343,47 @@ def cmp_guard(a, block, lhs, rhs):
     return reach
 
 
+def alias_locals(a, l):
+    """locals that hold the same value/reference as local l: plain copies/moves of it and whole reborrows `&*l`
+    (argument passing of an inlined helper, `let x = y;`)"""
+    al = {l}
+    changed = True
+    while changed:
+        changed = False
+        for blk in a.body.blocks:
+            for st in blk['stmts']:
+                if st['k'] != 'assign' or st['place']['p'] or st['place']['l'] in al:
+                    continue
+                rv = st['rv']
+                src = None
+                if rv['k'] == 'use' and rv['op']['k'] in ('copy', 'move') and not rv['op']['place']['p']:
+                    src = rv['op']['place']['l']
+                elif rv['k'] == 'ref' and rv['place']['p'] == ['deref']:
+                    src = rv['place']['l']
+                if src in al and len(a.defs.get(st['place']['l'], [])) == 1:
+                    al.add(st['place']['l'])
+                    changed = True
+    return al
+
+
+def _is_alias_def(st, al):
+    if st['k'] != 'assign' or st['place']['p'] or st['place']['l'] not in al:
+        return False
+    rv = st['rv']
+    if rv['k'] == 'use' and rv['op']['k'] in ('copy', 'move') and not rv['op']['place']['p'] and rv['op']['place']['l'] in al:
+        return True
+    return rv['k'] == 'ref' and rv['place']['p'] == ['deref'] and rv['place']['l'] in al
+
+
 def uses_of_local_blocks(a, l):
-    """blocks in which local l occurs as an operand/place base (reads, borrows, call args)"""
+    """blocks in which local l — or a plain copy / whole reborrow of it — occurs as an operand/place base (reads, borrows,
+    call args); the copies themselves are not uses"""
     out = set()
+    al = alias_locals(a, l)
 
     def scan(x, bi):
         if isinstance(x, dict):
-            if 'l' in x and 'p' in x and x['l'] == l:
+            if 'l' in x and 'p' in x and x['l'] in al:
                 out.add(bi)
             for v in x.values():
                 scan(v, bi)
@@ -360,6 +394,8 @@ def uses_of_local_blocks(a, l):
         if blk['cleanup'] or bi not in a.cfg.reach:
             continue
         for st in blk['stmts']:
+            if _is_alias_def(st, al):
+                continue
             scan(st, bi)
         scan(blk['term'], bi)
     return out
